@@ -18,6 +18,8 @@ type Tok struct {
 	Off  int
 	Line int
 	Col  int
+	// Ctx: Pos.Context is the context object the harness stored in the lexer
+	Ctx bool
 }
 
 type TokMap interface {
@@ -171,6 +173,27 @@ func (v Val) String() string {
 }
 
 func (v Val) Equal(w Val) bool { return v.String() == w.String() }
+
+// DeepString additionally renders the parts of error attributes that String
+// leaves out (expected tokens, token type and literal); used by the purely
+// differential checks, where both sides come from generated code.
+func (v Val) DeepString() string {
+	switch v.Kind {
+	case "node":
+		var a []string
+		for _, x := range v.Args {
+			a = append(a, x.DeepString())
+		}
+		return v.Tag + "(" + strings.Join(a, ",") + ")"
+	case "err":
+		var a []string
+		for _, x := range v.Err.Symbols {
+			a = append(a, x.DeepString())
+		}
+		return fmt.Sprintf("err{tok#%d type%d %q haserr=%v expected=%q syms[%s]}", v.Err.ErrTok, v.Err.ErrTokType, v.Err.ErrTokLit, v.Err.HasErr, v.Err.Expected, strings.Join(a, ","))
+	}
+	return v.String()
+}
 
 // Neutral converts the parts of a value that need no generated types; glue
 // supplies conv for *token.Token and *errors.Error.
